@@ -428,6 +428,8 @@ func propC11(w *World, r *Report) {
 	if ci3 := analyseHandleConn(w); ci3.err == nil {
 		checkSingleBufferedReader(w, r, newTermEnv(w), "H1", "the camera description and every recorded frame are read through the same bufio.Reader", ci3.handlerFuncs(), ci3.hdrCall, []*ssa.Call{ci3.probe, ci3.rest}, ci3.inSetup)
 	}
+	// "from the bytes on the frame socket": every frame read asks for exactly its bytes (a short read shifts every later frame)
+	linkObligations(w, r, propC14, "C14", func(o *Obligation) bool { return o.Rule == "C14.M3" && strings.Contains(o.Construct, "is io.ReadFull") }, "H1")
 	checkRecorderWriteDelivers(w, r, T, "H1")
 	checkHeaderInfoGetters(w, r)
 	checkConfigMapping(w, r)
